@@ -77,6 +77,7 @@ func histGen(r *rand.Rand, count int, emit func(op string, args ...string)) {
 	for i := 0; i < count; i++ {
 		// initial file
 		file := "!"
+		entries := [][]byte{}
 		switch r.Intn(6) {
 		case 0: // missing
 		case 1:
@@ -86,7 +87,9 @@ func histGen(r *rand.Rand, count int, emit func(op string, args ...string)) {
 			n := r.Intn(7)
 			for j := 0; j < n; j++ {
 				if r.Intn(10) > 0 {
-					sb = append(sb, word()...)
+					w := word()
+					entries = append(entries, w)
+					sb = append(sb, w...)
 				}
 				if j < n-1 || r.Intn(3) > 0 {
 					sb = append(sb, '\n')
@@ -100,12 +103,22 @@ func histGen(r *rand.Rand, count int, emit func(op string, args ...string)) {
 		max := 1 + r.Intn(5)
 		navs := []string{}
 		k := r.Intn(9)
+		if r.Intn(4) == 0 {
+			k = 8 + r.Intn(12)
+		}
 		for j := 0; j < k; j++ {
-			switch r.Intn(5) {
+			switch r.Intn(6) {
 			case 0, 1:
 				navs = append(navs, "p")
 			case 2:
 				navs = append(navs, "n")
+			case 3:
+				// edit to the text of a stored entry (e.g. back to the original)
+				if len(entries) > 0 {
+					navs = append(navs, "e:"+encBytes(entries[r.Intn(len(entries))]))
+				} else {
+					navs = append(navs, "e:"+encBytes(word()))
+				}
 			default:
 				navs = append(navs, "e:"+encBytes(word()))
 			}
@@ -114,7 +127,7 @@ func histGen(r *rand.Rand, count int, emit func(op string, args ...string)) {
 		if len(navs) > 0 {
 			ns = strings.Join(navs, "/")
 		}
-		emit("sess", file, itoa(max), ns, itoa(r.Intn(4)/3^1))
+		emit("sess", file, itoa(max), ns, itoa(b2i(r.Intn(4) > 0)))
 	}
 }
 
